@@ -354,7 +354,17 @@ def finish(check, tier, seed, agg, space_info, capped, t0):
         shown = 0
         confirmed = os.environ.get("FADLMC_NO_CONFIRM") == "1"
         tried = 0
+        # candidates for confirmation: interleave the spaces (a violation caused by state leaking between
+        # unrelated cases of one worker does not reproduce alone; one from a history space does)
+        by_space = {}
         for k, v in new.items():
+            by_space.setdefault(v["space"], []).append((k, v))
+        order = []
+        for i in range(max(len(x) for x in by_space.values())):
+            for sp in by_space:
+                if i < len(by_space[sp]):
+                    order.append(by_space[sp][i])
+        for k, v in order:
             if shown >= 8:
                 break
             path = os.path.join(rdir, f"{k}.json")
@@ -373,7 +383,7 @@ def finish(check, tier, seed, agg, space_info, capped, t0):
                                     cwd=VERIF, capture_output=True, text=True)
                 if pr.returncode == 1:
                     confirmed = True
-                elif tried >= 6:
+                elif tried >= 12:
                     sys.stderr.write(f"HARNESS ERROR: replays in a fresh process did not reproduce "
                                      f"(last rc={pr.returncode})\n{pr.stdout}\n{pr.stderr}\n")
                     write_evidence(check, tier, seed, agg, space_info, capped, t0, len(new), hit,
